@@ -65,7 +65,15 @@ pub fn encode2(inp: &Value) -> R<Value> {
     };
     let out = crate::with_cap!(cap, serialize_into, &resp, &stale)
         .ok_or_else(|| format!("capacity {} is not instantiated", cap))?;
-    Ok(json!({"buf": bytes(&out)}))
+    // the same response into a buffer with different previous contents ...
+    let alt_stale: std::vec::Vec<u8> = if stale.is_empty() { vec![0xEE; cap] } else { vec![] };
+    let alt = crate::with_cap!(cap, serialize_into, &resp, &alt_stale).unwrap();
+    // ... and into the largest transport buffer (the complete message)
+    let big = serialize_into::<7609>(&resp, &[]);
+    // the value must also survive Debug / Clone / PartialEq
+    let clone_eq = resp.clone() == resp;
+    let _ = format!("{:?}", resp);
+    Ok(json!({"buf": bytes(&out), "buf_alt": bytes(&alt), "buf_big": bytes(&big), "clone_eq": clone_eq}))
 }
 
 // ------------------------------------------------------------------------------------------
